@@ -135,6 +135,20 @@ CLAIMED = {
             "populated objects only (as the property states)",
             "contract-based deductive verification of integer handlers (z3) + labelled bounded differential round trips",
             "DESIGN.md section 4 C02"),
+    'C07': ("Proved (symbolic, every namespace string and every counter value): the prefix allocator "
+            "get_namespace_prefix never rebinds a prefix or a namespace (tables gain exactly the requested binding). "
+            "Determinism: the interface is populated and the documents are built by the interpreted real code while an "
+            "adversary fixes the iteration order of every set (3 orders, labelled bounded); all orders must give "
+            "byte-identical documents; violations are replayed natively in fresh processes under 4 hash seeds x shifted "
+            "memory layouts. Closure and one-operation-per-method (bounded, labelled): an independent reference resolver "
+            "over the WSDL of generated applications (custom operation/message names, one and several in/out headers from "
+            "foreign namespaces, declared faults, port types, five namespaces, inheritance across namespaces, enumerations, "
+            "all body styles). Foreign client (bounded, labelled): zeep generated from ?wsdl alone builds one request per "
+            "method, the interpreted real server accepts it, zeep decodes bodies, output headers and a declared fault.",
+            "generated applications are a bounded program space; zeep is assumed to implement WSDL 1.1/SOAP 1.1",
+            "contract-based deductive verification of the prefix allocator (z3 strings) + order-adversary execution of the "
+            "real builders + labelled bounded reference-resolver / foreign-client checks",
+            "DESIGN.md section 4 C07"),
 }
 NOT_YET = {}
 for i in range(1, 19):
